@@ -189,6 +189,9 @@ inductive Plain where
   | incl (file : Option (List (List CTok)))
   /-- a directive name the preprocessor does not know -/
   | unknown
+  /-- a directive that does not start with a name at all (`#3`, `# +`): a non-directive of C that the
+      preprocessor rejects where it is processed -/
+  | nonName
   deriving DecidableEq, Repr, Inhabited
 
 /-- head of an if-section -/
@@ -232,6 +235,7 @@ def Plain.apply {ε : Type} (s : Env × Out) : Plain → Except (Reject ε) (Env
   | .incl none => .error .missingInclude
   | .incl (some lines) => .ok (s.1, s.2 ++ lines.map s.1.expand)
   | .unknown => .error .unknownDirective
+  | .nonName => .error .unknownDirective
 
 section
 variable {ε : Type} (cv : Env → List CTok → Except ε Bool)
@@ -298,6 +302,8 @@ inductive ShapeErr where
   | unmatchedElse     -- `#elif`/`#else` with no open if-section
   | unmatchedEndif
   | unterminated
+  | elseAfterElse     -- a second `#else` in one if-section
+  | elifAfterElse     -- `#elif` after the `#else` of its if-section
   deriving DecidableEq, Repr, Inhabited
 
 /-- the property's rule: "an unterminated chain or an unmatched #else/#endif is rejected";
@@ -326,5 +332,24 @@ def scanStrict (st : List Bool) : List Shape → Bool
     | _ :: st' => scanStrict st' r
     | [] => false
   | .other :: r => scanStrict st r
+
+/-- the full C grammar of if-sections as a scan that names the first violation: unmatched `#elif/#else/#endif`,
+    `#else`/`#elif` after the `#else` of the same if-section, unterminated if-section.  The stack records, per
+    open if-section (innermost first), whether its `#else` was seen. -/
+def scanC (st : List Bool) : List Shape → Except ShapeErr Unit
+  | [] => if st.isEmpty then .ok () else .error .unterminated
+  | .opens :: r => scanC (false :: st) r
+  | .elif :: r => match st with
+    | [] => .error .unmatchedElse
+    | true :: _ => .error .elifAfterElse
+    | false :: _ => scanC st r
+  | .els :: r => match st with
+    | [] => .error .unmatchedElse
+    | true :: _ => .error .elseAfterElse
+    | false :: st' => scanC (true :: st') r
+  | .endif :: r => match st with
+    | [] => .error .unmatchedEndif
+    | _ :: st' => scanC st' r
+  | .other :: r => scanC st r
 
 end RsslVerif.Spec.CPre
